@@ -215,3 +215,70 @@ func c02CancelGroup(early bool) {
 	}
 	vnd.Assert(!s.JobExists(ctx, "grp-a") && !s.JobExists(ctx, "grp-b"), "C02.group.job-table-empty-afterwards")
 }
+
+// VerifC02_Reuse: a job's name is scheduled again while the first job's
+// function is still running (the controller does this after a reorg: cancel,
+// then schedule the same name). The replacement is a job of its own: it stays in
+// the table until it is claimed, it can be cancelled (and then never runs) or
+// started early, the first job's end does not touch it, and nothing runs twice.
+func VerifC02_Reuse() {
+	s := &Service{jobs: make(map[string]*job)}
+	ctx := context.Background()
+	work := c02Delay("first.duration")
+	vnd.Assume(work > 0)
+	var runs [2]int
+	T := c02Delay("first.delay")
+	err := s.ScheduleJob(ctx, "class", "job", time.Now().Add(T), func(_ context.Context) { runs[0]++; vnd.Sleep(work) })
+	vnd.Assert(err == nil, "C02.reuse.accepted")
+	early := vnd.Bool("first.started-by-runjob")
+	// the moment inside the first run at which the name is scheduled again
+	into := c02Delay("reschedule.into-the-run")
+	vnd.Assume(into > 0 && into < work)
+	startAt := T
+	if early {
+		startAt = c02Delay("first.runjob-at")
+		vnd.Assume(startAt < T)
+		go func() {
+			vnd.Sleep(startAt)
+			_ = s.RunJob(ctx, "job")
+		}()
+	}
+	then := vnd.Choose("replacement.then", 3) // 0 left alone, 1 cancelled, 2 started early
+	var schedErr, thenErr, firstCancelErr error
+	existsAfterFirstEnded := false
+	go func() {
+		vnd.Sleep(startAt + into)
+		// cancelling the name first is what the controller does on a reorg: the job was
+		// claimed when it started, so it is no longer there to be withdrawn (the
+		// controller takes a nil answer to mean the job will not run)
+		firstCancelErr = s.CancelJob(ctx, "job")
+		schedErr = s.ScheduleJob(ctx, "class", "job", time.Now().Add(3*time.Hour), func(_ context.Context) { runs[1]++ })
+		// wait until the first job's function has returned
+		vnd.Sleep(work)
+		existsAfterFirstEnded = s.JobExists(ctx, "job")
+		switch then {
+		case 1:
+			thenErr = s.CancelJob(ctx, "job")
+		case 2:
+			thenErr = s.RunJob(ctx, "job")
+		}
+	}()
+	left := vnd.Quiesce()
+	vnd.Assert(left == 0, "C02.reuse.no-goroutine-left-blocked")
+	vnd.Assert(runs[0] == 1, "C02.reuse.first-job-ran-once")
+	vnd.Assert(firstCancelErr != nil, "C02.reuse.running-job-is-claimed-not-cancellable")
+	vnd.Assert(schedErr == nil, "C02.reuse.name-of-a-claimed-job-can-be-scheduled-again")
+	vnd.Assert(existsAfterFirstEnded, "C02.reuse.replacement-still-known-after-the-first-job-ended")
+	vnd.Assert(runs[1] <= 1, "C02.reuse.never-runs-twice")
+	switch then {
+	case 0:
+		vnd.Assert(runs[1] == 1, "C02.reuse.replacement-runs-at-its-time")
+	case 1:
+		vnd.Cover("C02.reuse.replacement-cancelled")
+		vnd.Assert(thenErr == nil && runs[1] == 0, "C02.reuse.cancelled-replacement-never-runs")
+	case 2:
+		vnd.Cover("C02.reuse.replacement-started-early")
+		vnd.Assert(thenErr == nil && runs[1] == 1, "C02.reuse.replacement-started-early-runs-once")
+	}
+	vnd.Assert(!s.JobExists(ctx, "job"), "C02.reuse.job-table-empty-afterwards")
+}
